@@ -17,14 +17,36 @@ pub fn vf_prefix_len<T, F: Fn(&&T) -> bool>(v: &[T], f: F) -> (r: usize)
         forall|i: int| 0 <= i < r ==> call_ensures(f, (&&#[trigger] v@[i],), true),
         r < v@.len() ==> call_ensures(f, (&&v@[r as int],), false),
 { unimplemented!() }
+// v.iter().any(f)   (vstd's own spec of `any` is too weak to conclude anything from `false`)
+#[verifier::external_body]
+pub fn vf_any<T, F: Fn(&T) -> bool>(v: &[T], f: F) -> (r: bool)
+    requires forall|i: int| 0 <= i < v@.len() ==> call_requires(f, (&#[trigger] v@[i],)),
+    ensures
+        r ==> exists|i: int| 0 <= i < v@.len() && call_ensures(f, (&#[trigger] v@[i],), true),
+        !r ==> forall|i: int| 0 <= i < v@.len() ==> call_ensures(f, (&#[trigger] v@[i],), false),
+{ unimplemented!() }
 // v.windows(2).any(f)
 pub open spec fn is_window<T>(v: Seq<T>, i: int, w: &[T]) -> bool { 0 <= i < v.len() - 1 && w@ == v.subrange(i, i + 2) }
+pub open spec fn has_window<T>(v: Seq<T>, i: int) -> bool { exists|w: &[T]| #[trigger] is_window(v, i, w) }
 #[verifier::external_body]
 pub fn vf_adjacent_any<T, F: Fn(&[T]) -> bool>(v: &[T], f: F) -> (r: bool)
     requires forall|w: &[T]| w@.len() == 2 ==> call_requires(f, (w,)),
     ensures
         r ==> exists|i: int, w: &[T]| #[trigger] is_window(v@, i, w) && call_ensures(f, (w,), true),
         !r ==> forall|i: int, w: &[T]| #[trigger] is_window(v@, i, w) ==> call_ensures(f, (w,), false),
+        // every window exists as a sub-slice (that is what `windows` yields)
+        forall|i: int| 0 <= i < v@.len() - 1 ==> #[trigger] has_window(v@, i),
+{ unimplemented!() }
+// v.into_iter().map(f1).take_while(f2).collect(): the mapped values of the longest prefix on which f2 holds
+#[verifier::external_body]
+pub fn vf_map_take_while<A, B, F1: Fn(A) -> B, F2: Fn(&B) -> bool>(v: Vec<A>, f1: F1, f2: F2) -> (r: Vec<B>)
+    requires
+        forall|i: int| 0 <= i < v@.len() ==> call_requires(f1, (#[trigger] v@[i],)),
+        forall|b: B| call_requires(f2, (&b,)),
+    ensures
+        r@.len() <= v@.len(),
+        forall|i: int| 0 <= i < r@.len() ==> call_ensures(f1, (v@[i],), #[trigger] r@[i]) && call_ensures(f2, (&r@[i],), true),
+        r@.len() < v@.len() ==> exists|b: B| call_ensures(f1, (v@[r@.len() as int],), b) && #[trigger] call_ensures(f2, (&b,), false),
 { unimplemented!() }
 // Vec<(K, V)> -> HashMap (later entries win), assumed FromIterator semantics
 pub open spec fn seq_to_map<K, V>(s: Seq<(K, V)>) -> Map<K, V> decreases s.len() {
